@@ -135,4 +135,9 @@ def pyIntAscii (s : Str) : Option Int :=
   | 45 :: r => (digitsUnderscore r none false).map (fun n => - Int.ofNat n)
   | r => (digitsUnderscore r none false).map Int.ofNat
 
+/-- `p in s` for a substring `p` (Python's `in` on two strings) -/
+def hasSub (p : Str) : Str → Bool
+  | [] => p.isEmpty
+  | c :: cs => p.isPrefixOf (c :: cs) || hasSub p cs
+
 end Yarl
